@@ -53,6 +53,11 @@ def run(ctx):
     quad_conditioning(ctx)
     cache_error(ctx)
     cache_sentinel(ctx)
+    # "unchanged by reversal": a reversed segment must be the same curve, i.e. the per-class reversal effects of C16 R16.1
+    ctx.rule("R15.6", "length is unchanged by reversal: reverse() of every segment class yields the same curve (obligations shared with C16 R16.1)")
+    from . import c16
+
+    c16.per_class(ctx.renamed("R15.6"))
     subdivision(ctx)
     n = cachecoh.check(ctx, "R15.5")
     ctx.need(n >= 8, "R15.5", "too few mutating methods recognised (%d)" % n)
